@@ -72,6 +72,7 @@ def source_variables(ck: Check, rule: str) -> None:
     net = f.params()[0]
     se = SymEval(fm)
     probs = []
+    filtered_form = False
     rets = [r for r in own_walk(f.node) if isinstance(r, ast.Return) and r.value is not None]
     if not rets:
         probs.append("nothing is returned")
@@ -82,6 +83,16 @@ def source_variables(ck: Check, rule: str) -> None:
         # ... also written as a set difference with the `change` attributes of all nodes
         if base == f"({VN} Sub map(elem({CH}).1,{CH}))":
             base = VN
+        if base != VN:
+            # ... or as a filter of the list of all names: [v for v in all_names if v not in changed], changed taken from the
+            # `change` attributes
+            col = se.collection(r.value, fm.cfgn(r))
+            if col and len(col) == 1 and col[0][0] == f"elem({VN})":
+                ats = [a_ for a_ in logic.atoms(col[0][1]) if a_[0] == "b"]
+                if len(ats) == 1 and ats[0][1].startswith(f"in:elem({VN})|") and "nodes(data='change')" in ats[0][1].replace('"', "'") \
+                        and logic.equivalent(col[0][1], logic.Not(("atom", ats[0]))):
+                    base = VN
+                    filtered_form = True
         if base != VN:
             probs.append(f"the candidates are `{base[:90]}`, not all variables of the net: a variable that no transition reads or "
                          f"changes (an input that regulates nothing) is no longer a source, and the root's successors do not "
@@ -98,7 +109,7 @@ def source_variables(ck: Check, rule: str) -> None:
         lps = fm.cfg.enclosing_loops(fm.cfgn(c))
         if not lps or any(isinstance(z, (ast.Break, ast.Return)) for z in ast.walk(lps[0])):
             probs.append("not every transition is examined")
-    if not removed and not any("Sub" in se.val(r.value, fm.cfgn(r)) for r in rets):
+    if not removed and not filtered_form and not any("Sub" in se.val(r.value, fm.cfgn(r)) for r in rets):
         if not any(isinstance(x, (ast.SetComp, ast.ListComp, ast.BinOp)) for r in rets for x in ast.walk(fm.deref(r.value, fm.cfgn(r)))):
             probs.append("changed variables are not excluded")
     ck.ob(rule, fm, f.node, not probs, "; ".join(sorted(set(probs))) if probs else
